@@ -117,6 +117,23 @@ class C08(Prop):
             return self.gen_dense(rng)
         if r < 0.4:
             return self.gen_sibling(rng)
+        if r < 0.46:
+            # a past operator above a bounded-future one, after pastify(): the late start of the past operation is a
+            # number of samples whatever the period and the default unit are (look-ahead of 1..12 samples)
+            k = rng.randint(1, 12)
+            p = lang.N(rng.choice(['geq', 'leq']), lang.V('x'), lang.C(rng.choice([0.0, 1.0, 2.0])))
+            inner = lang.N(rng.choice(['eventually', 'always']), p, ivl=(rng.choice([0, 0, 1]) if k > 1 else 0, k))
+            o = rng.choice(['historically', 'once', 'prev', 'rise', 'historically', 'once'])
+            f = lang.N(o, inner) if (o in ('prev', 'rise') or rng.random() < 0.5) else lang.N(o, inner, ivl=(0, rng.randint(1, 3)))
+            if rng.random() < 0.4:
+                f = lang.N(rng.choice(['and', 'or']), f, lang.N('geq', lang.V('y'), lang.C(0.0)))
+            names = lang.variables(f)
+            return {'type': 'discrete', 'cls': 'pastified', 'formula': f,
+                    'data': lang.gen_trace(rng, names, rng.randint(4, 14) + lang.horizon(f)),
+                    'period': rng.choice([(10, 'ms'), (10000, 'us'), (1, 'ms'), (1, 'us'), (100, 'ms'), (500, 'ms'), (1, 's'),
+                                          (7, 'ms'), (2500, 'us')]),
+                    'unit': rng.choice(['s', 's', 'ms', 'us']), 'mode': rng.choice(MODES), 'sseed': rng.randrange(1 << 30),
+                    'set_unit_explicitly': rng.random() < 0.3}
         cls = rng.choice(['offline', 'online', 'pastified', 'pastified', 'pastified-futurefree'])
         if cls == 'offline':
             c = lang.GenCfg(vars=['x', 'y'], max_depth=rng.choice([1, 2, 3]), unless=True, max_bound=rng.choice([2, 4, 6]),
